@@ -284,6 +284,7 @@ def write_evidence(pid, spec, tier, seed, vc, sym, rtc, real, known_hit, undecid
         for _p in _reg.PROPS.values():
             for name in _p.get('vc', []):
                 verified.add(name.split('[')[0])
+                verified.add(name)
         cov['canaries'] = vc.get('canaries', [])        # false statements over the same hypotheses: all must be refuted
         used = sorted(vc.get('used', ()))
         cov['call_site_contracts'] = {
